@@ -27,3 +27,12 @@ package format
 // that callers are checked against it instead of its body.
 //@ func replaceSmartPayloadType
 //@   modifies fresh
+
+// C08: classifying an incoming packet never indexes out of range. The aggregation-unit loop
+// is entered with at least two bytes and re-checks that before every further iteration.
+//@ func (f *H265) PTSEqualsDTS
+//@   opt safety-tag=C08
+//@   requires pkt != nil
+//@   modifies nothing
+//@   loop 1
+//@     invariant len(payload) >= 2
